@@ -171,6 +171,10 @@ class Channel(BaseChannel):
                 yield message.to_tuple()
                 continue
             yield message
+        if self._connection.exceptions:
+            # The connection failed and another thread closed it first; do
+            # not end as if there were simply no more messages.
+            self.check_for_errors()
 
     def close(self, reply_code=200, reply_text=''):
         """Close Channel.
